@@ -88,6 +88,13 @@ theorem text_New_ok : Oidc.Shapes.Text_New := by unfold Oidc.Shapes.Text_New; rf
 theorem text_SessionData_GetEmail_ok : Oidc.Shapes.Text_SessionData_GetEmail := by unfold Oidc.Shapes.Text_SessionData_GetEmail; rfl
 theorem text_SessionData_SetEmail_ok : Oidc.Shapes.Text_SessionData_SetEmail := by unfold Oidc.Shapes.Text_SessionData_SetEmail; rfl
 
+/-! further functions these theorems rest on (every forwarded request passes through them) -/
+theorem shape_ServeHTTP_ok : Oidc.Shapes.Shape_ServeHTTP := by unfold Oidc.Shapes.Shape_ServeHTTP; rfl
+theorem shape_isUserAuthenticated_ok : Oidc.Shapes.Shape_isUserAuthenticated := by unfold Oidc.Shapes.Shape_isUserAuthenticated; rfl
+theorem text_SessionData_GetAccessToken_ok : Oidc.Shapes.Text_SessionData_GetAccessToken := by unfold Oidc.Shapes.Text_SessionData_GetAccessToken; rfl
+theorem text_SessionData_GetRefreshToken_ok : Oidc.Shapes.Text_SessionData_GetRefreshToken := by unfold Oidc.Shapes.Text_SessionData_GetRefreshToken; rfl
+theorem text_SessionData_GetAuthenticated_ok : Oidc.Shapes.Text_SessionData_GetAuthenticated := by unfold Oidc.Shapes.Text_SessionData_GetAuthenticated; rfl
+
 /-! ## The same statements about the code itself: the functions below are `Oidc.Generated.Code`, which `tools/go2lean` translates
     from /repo's source, statement by statement, on every run (meaning of the Go constructs: `Oidc/GoLib.lean`) -/
 open Oidc.Generated Oidc.CodeRefine in
